@@ -182,6 +182,10 @@ def run_shard(ctx):
                 res.count("verifying_writer_runs")
             hold = rng.choice([0.02, 0.1, 0.25])
 
+            reporting = {i_ for i_ in range(len(odbs)) if rng.random() < 0.25}
+            if reporting:
+                res.count("writers_with_a_reporting_status_hook", len(reporting))
+
             def writer(i):
                 try:
                     barrier.wait(timeout=30)
@@ -200,6 +204,9 @@ def run_shard(ctx):
                             time.sleep(hold)  # the others get on with it meanwhile
 
                         kw["validate_status"] = lose
+                    elif i in reporting:
+                        # a status hook that only reports (and returns a value, as a logging helper might): it changes nothing
+                        kw["validate_status"] = lambda status_: bool(status_.missing)
                     r = transfer(staging, odbs[i], {obj.hash_info}, shallow=False, jobs=jobs_of[i], verify=vfy, **kw)
                     failed = sorted(h.value for h in r.failed)
                     oid2 = None
